@@ -1,7 +1,8 @@
 """Shared helpers for the translators (Rust source text -> Lean definitions)."""
 import os, re, sys
 
-REPO = os.environ.get("VERIF_REPO", "/repo")
+VERIF = os.path.dirname(os.path.dirname(os.path.dirname(os.path.abspath(__file__))))
+REPO = os.environ.get("VERIF_REPO") or os.path.realpath(os.path.join(VERIF, "repo-link"))
 VERIF = os.path.dirname(os.path.dirname(os.path.dirname(os.path.abspath(__file__))))
 GEN_DIR = os.path.join(VERIF, "lean", "FuelVerif", "Gen")
 
